@@ -347,7 +347,7 @@ fn tile_file(
         if !legal_slot_size(size) {
             complaints.push(format!("{what}: slot at {off} has illegal size {size}"));
         }
-        if off + size > flen {
+        if off.saturating_add(size) > flen {
             complaints.push(format!(
                 "{what}: slot at {off} size {size} runs past end of file {flen}"
             ));
@@ -458,6 +458,10 @@ fn tile_file(
 /// decode the three files of one map.
 pub fn decode(kt: Kt, htx: &[u8], key: &[u8], val: &[u8]) -> Decoded {
     let mut d = Decoded::default();
+    if mode() == Mode::Off {
+        // the crate is built with another record format or another hash: nothing to decode
+        return d;
+    }
     let sig = kt.signature();
     // ---- headers
     if (htx.len() as u64) < HTX_HEADER {
@@ -578,7 +582,7 @@ pub fn decode(kt: Kt, htx: &[u8], key: &[u8], val: &[u8]) -> Decoded {
                     Ok((sz, v, enc)) => {
                         vsize = sz;
                         venc = enc;
-                        if sz == 0 || enc > sz || voff + sz > vlen {
+                        if sz == 0 || enc > sz || voff.saturating_add(sz) > vlen {
                             d.structure.push(format!(
                                 "value record {voff}: encoded length {enc} exceeds its slot {sz} / file {vlen}"
                             ));
